@@ -255,8 +255,12 @@ class Type3Tag(nfc.tag.Tag):
             attributes['ln'] = len(data)  # because we may need to pad zeros
             data = data + bytearray(-len(data) % 16)  # adjust to block size
 
-            for i in range(1, last_block_number, attributes['nbw']):
-                last_block = min(i + attributes['nbw'], last_block_number)
+            # A command frame holds 13 blocks with two byte block list
+            # elements but only 12 when block numbers exceed 255.
+            nbw = min(attributes['nbw'], 13 if last_block_number <= 256 else 12)
+
+            for i in range(1, last_block_number, nbw):
+                last_block = min(i + nbw, last_block_number)
                 block_data = data[(i-1)*16:(last_block-1)*16]
                 self._tag.write_to_ndef_service(
                     block_data, *range(i, last_block))
